@@ -21,6 +21,7 @@ func TestMain(m *testing.M) { core.Main(m) }
 type kase struct {
 	Name string `json:"name"`
 	Src  string `json:"src"`
+	Want string `json:"want,omitempty"` // exact expected stdout when the generator has a model of the program
 }
 
 type buildResult struct {
@@ -62,8 +63,14 @@ func judge(k kase) (key, what, domain string, st stats) {
 			return "invalid-heap-event/" + eventClass(r.Events[0]), "allocator events that the property forbids:\n" + strings.Join(r.Events, "\n"), "", st
 		}
 	}
+	if plain.RunErr != "" && k.Want != "" {
+		return "trap-in-modelled-program", "a program that only allocates, drops and re-reads slices (it cannot trap by itself) failed: " + firstLines(plain.RunErr, 4) + "\noutput so far:\n" + diffText(k.Want, plain.Stdout), "", st
+	}
 	if plain.RunErr != "" {
 		return "", "", "program-traps-without-poison (C01 domain): " + firstLines(plain.RunErr, 2), st
+	}
+	if k.Want != "" && plain.Stdout != k.Want {
+		return "output-differs-from-model", "live data was lost or altered: " + diffText(k.Want, plain.Stdout), "", st
 	}
 	if pois.RunErr != "" {
 		return "trap-under-poison", "the program runs to completion normally but fails when freed memory is overwritten with garbage: " + firstLines(pois.RunErr, 4), "", st
@@ -99,7 +106,7 @@ func diffText(want, got string) string {
 			b = gl[i]
 		}
 		if a != b {
-			return fmt.Sprintf("first difference at output line %d: plain %q, poisoned %q", i+1, a, b)
+			return fmt.Sprintf("first difference at output line %d: reference %q, observed %q", i+1, a, b)
 		}
 	}
 	return "outputs differ"
@@ -149,6 +156,9 @@ func replay(test string, raw json.RawMessage) (string, string) {
 		return "harness/bad-replay", err.Error()
 	}
 	key, what, _, _ := judge(k)
+	if key != "" && test == "HeapChurn" {
+		key = "churn/" + key
+	}
 	return key, what
 }
 
